@@ -7,6 +7,7 @@ R20.comp   step() has no effect of its own: first_cycle_step(); second_cycle_ste
            in that order (both self-guarded); single_step() dispatches on
            next_cycle to exactly the half that is due.
 R20.own    next_cycle is written only 1 (init), ->2 (first half), ->1 (second half).
+R20.cost   the TOY counters are written only inside the two half steps.
 """
 from __future__ import annotations
 
@@ -247,6 +248,27 @@ def run(ctx: Ctx) -> None:
                    "that half is due", p.labels())
     r.inst(key, {"paths": n})
     r.floor(2)
+
+    # "no-ops once the program is done": the TOY counters are stepped by the two half steps themselves (behind their own done /
+    # sequence tests, R20.seq) and by nothing that runs around them (a wrapper, a decorator, a metrics method called from elsewhere)
+    r = ctx.rule("R20.cost", "the TOY cycle / instruction counters are written only inside the two half steps")
+    n_w = 0
+    for attr in ("cycles", "instruction_count"):
+        for f, st, t in attr_stores(m, attr):
+            if not ("toy" in f.module.name):
+                continue
+            n_w += 1
+            ok = (f.cls is sim and f.name in HALF) or f.name == "__init__" or (f.cls is not None and f.cls.is_dataclass and f.name == "__post_init__")
+            r.check(ok, f"{short(f.qname)}|{attr}-writer", f.loc(st), f"`{seg(f, st)}` in {short(f.qname)} writes the TOY counter `{attr}` outside "
+                    "first_cycle_step / second_cycle_step: whatever calls it is not behind the half steps' own is_done() / next_cycle tests, so "
+                    "stepping a finished program (or a half step out of order) can still advance the counter")
+    in_halves = {(f.name, attr) for attr in ("cycles", "instruction_count") for f, st, t in attr_stores(m, attr) if f.cls is sim and f.name in HALF}
+    for name, attr in (("first_cycle_step", "cycles"), ("second_cycle_step", "cycles"), ("second_cycle_step", "instruction_count")):
+        r.check((name, attr) in in_halves, f"ToySimulation.{name}|{attr}|own", m.method(sim, name, own=True).loc(),
+                f"ToySimulation.{name} no longer steps `{attr}` itself (behind its own is_done() / next_cycle tests): the counter is advanced by "
+                "code around the half step (a decorator, a wrapper, a nested function), which also runs when the half step returns early "
+                "because the program is done")
+    r.floor(3)
 
     r = ctx.rule("R20.own", "next_cycle has exactly three writers: 1 / ->2 / ->1")
     want = {"__init__": 1, "first_cycle_step": 2, "second_cycle_step": 1}
